@@ -99,7 +99,43 @@ def rule_R1_R2(ctx, f):
                     pre_gate = True
     leak = b.reach(body_entry, avoid_edges=refining)
     ok = pre_gate or (n.bb not in leak and exit_t not in leak)
-    if ok and not pre_gate and e[1] == ["windows"]:
+    if not ok and not pre_gate and e[1] == ["windows"]:
+        # the other way to cover every bound with windows(2): each pair's SECOND bound is NaN-gated in the loop (bounds 1..n-1) and the FIRST bound of the list before the loop
+        ref2 = []
+        for bi in b.reach(body_entry, avoid_blocks=[n.bb]):
+            be = b.bool_edges(bi)
+            if not be:
+                continue
+            cnd, tt, tf = be
+            second = ("win", elem[1], 1)
+            if is_call(cnd, ["f64::is_nan"]) and is_elem_value(cnd[2][0], second):
+                ref2.append((bi, tf))
+            elif is_call(cnd, ["f64::is_finite", "f64::is_normal"]) and is_elem_value(cnd[2][0], second):
+                ref2.append((bi, tt))
+            elif cnd[0] == "binop" and cnd[1] in CMP and (is_elem_value(cnd[2], second) or is_elem_value(cnd[3], second)):
+                ref2.append((bi, tt))
+        leak2 = b.reach(body_entry, avoid_edges=ref2)
+        first_ok = False
+        for bi in b.reachable_blocks():
+            be = b.bool_edges(bi)
+            if not be or not b.dominates(bi, n.bb):
+                continue
+            cnd, tt, tf = be
+            # buckets.first().is_some_and(|x| x.is_nan()) -> Err   /   buckets[0].is_nan() -> Err
+            if is_call(cnd, "Option::is_some_and") and is_call(peel(cnd[2][0], transparent=[]), ["slice::first", "Vec::first"]) and peel(peel(cnd[2][0], transparent=[])[2][0]) == P(1):
+                a_ = peel(cnd[2][1], transparent=[])
+                cl_ = f.closure(a_[2]) if (isinstance(a_, tuple) and a_ and a_[0] == "agg" and a_[1] == "closure") else None
+                r_ = peel(cl_.term_local(0), transparent=[]) if cl_ is not None else None
+                if is_call(r_, "f64::is_nan") and peel(r_[2][0]) in (("param", 2), ("deref", ("param", 2))) and rejecting(b, tt) and b.edge_dominates(bi, tf, n.bb):
+                    first_ok = True
+            if is_call(cnd, "f64::is_nan"):
+                x_ = peel(cnd[2][0], transparent=["Option::unwrap", "Option::expect"])
+                is_first = (is_call(x_, ["slice::first", "Vec::first"]) and peel(x_[2][0]) == P(1)) or \
+                           (isinstance(x_, tuple) and len(x_) == 3 and x_[0] == "index" and peel(x_[1]) == P(1) and const_int(x_[2]) == 0)
+                if is_first and rejecting(b, tt) and b.edge_dominates(bi, tf, n.bb):
+                    first_ok = True
+        ok = first_ok and n.bb not in leak2 and exit_t not in leak2
+    elif ok and not pre_gate and e[1] == ["windows"]:
         # the last bound is the first of no pair: it must be NaN-gated after the loop, on every path to the accepting exit (this is also the only test of a one-element list)
         def is_last(t):
             t = peel(t, transparent=["Option::unwrap", "Option::expect", "Option::unwrap_unchecked"])
@@ -255,6 +291,16 @@ def rule_R3(ctx, f):
                     lasts = [z for z in (x, y) if is_call(peel(z, transparent=["Option::unwrap", "Option::expect"]), ["slice::last", "Vec::last"])]
                     if len(infs) == 1 and len(lasts) == 1 and peel(peel(lasts[0], transparent=["Option::unwrap", "Option::expect"])[2][0]) == P(1):
                         guards = {"is_sign_positive", "is_infinite"}     # `last == +Inf` is the same test
+        if not guards:
+            for bi in b.reach(exit_t):
+                be = b.bool_edges(bi)
+                if be and is_call(be[0], "PartialEq::eq") and b.edge_dominates(bi, be[1], pops[0].bb):
+                    # `buckets.last() == Some(&f64::INFINITY)`
+                    x, y = peel(be[0][2][0]), peel(be[0][2][1])
+                    somes = [z for z in (x, y) if isinstance(z, tuple) and z and z[0] == "agg" and z[2].endswith("Option::Some") and is_pos_inf_const(peel(z[3][0]))]
+                    lasts = [z for z in (x, y) if is_call(z, ["slice::last", "Vec::last"]) and peel(z[2][0]) == P(1)]
+                    if len(somes) == 1 and len(lasts) == 1:
+                        guards = {"is_sign_positive", "is_infinite"}
         ctx.ob(rid, "inf|pop-guard", guards == {"is_sign_positive", "is_infinite"} and tail_ok,
                "pop must be guarded by is_sign_positive && is_infinite of buckets.last() (found guards %s)" % sorted(guards), site=pops[0].span)
     oks = ok_payloads(b)
